@@ -56,7 +56,7 @@ def run(ctx):
     binary = vlib.build(ctx, "mutant")
     n = 3600 if ctx.thorough else 480
     lo = ctx.seed * 100000 + 70000
-    r = vlib.tlc(ctx, "MtailMut", cfg(lo, lo + n - 1), label="MtailMut", timeout=2400, heap="12g")
+    r = vlib.tlc(ctx, "MtailMut", cfg(lo, lo + n - 1), label="MtailMut", timeout=2400, heap="12g", workers=4)
     if len(r.cases) != n:
         raise vlib.InfraError("TLC emitted %d mutants, expected %d" % (len(r.cases), n))
     recs = {x["seed"]: x for x in vlib.run_harness(ctx, binary, cases=r.cases, timeout=2400) if "seed" in x}
